@@ -923,7 +923,8 @@ def matcher_sequences(ctx, b, quick):
     exp = os.path.join(ctx.work, "c05m.exp")
     open(exp, "w").write(text)
     real = Real(ctx, b, "c05m", exp_path=exp)
-    rng = ctx.rng
+    import random
+    rng = random.Random(f"C05-matcher:{ctx.seed}")   # own generator: this stream runs beside the others
     seqs = []
     allsets = []
     for r in roots:
@@ -932,12 +933,13 @@ def matcher_sequences(ctx, b, quick):
         legal = [X for X in sets if G.legal(r, X)]
         illegal = [X for X in sets if not G.legal(r, X)]
         allsets += [(X, True) for X in legal] + [(X, False) for X in illegal]
-        pairs = [(X, Y) for X in sets for Y in legal if len(X) > 1 or len(Y) > 1]
-        if quick and len(pairs) > 80:
-            # every ordered pair of legal instances always; pairs that start with an illegal one sampled
-            ll = [(X, Y) for X, Y in pairs if X in legal]
-            rest = [p for p in pairs if p[0] not in legal]
-            pairs = ll + rng.sample(rest, min(len(rest), 30))
+        # every ordered pair in which at least one instance is legal (the second may be the illegal one: the state the
+        # first leaves behind is what matters); pairs of two illegal instances sampled in quick
+        pairs = [(X, Y) for X in sets for Y in sets if (len(X) > 1 or len(Y) > 1)]
+        if quick:
+            keep = [p for p in pairs if p[0] in legal or p[1] in legal]
+            rest = [p for p in pairs if not (p[0] in legal or p[1] in legal)]
+            pairs = keep + rng.sample(rest, min(len(rest), 20))
         seqs += [list(p) for p in pairs]
         for _ in range(4 if quick else 40):          # longer orders within one supertype
             k = rng.randint(3, 6)
